@@ -51,6 +51,8 @@ ASSUMPTIONS = [
 ]
 
 
+REJECTIONS = (TypeError, AttributeError, ValueError, NotImplementedError)  # policy of vp/containers.py: a clean rejection of a
+# non-default container is 'not accepted' (outside the property), never a violation; once accepted the result must be right
 ENCODE_REPS = ["frozen_big"]
 DECODE_REPS = ["little", "frozen_big", "frozen_little"]
 
@@ -259,14 +261,20 @@ def oracle_roundtrip(case):
     s144, s196 = want_bits.to01(), enc.to01()
     for rep in ENCODE_REPS:
         arg = make_bits(s144, rep)
-        e2 = call(T().encode, arg)[1]
+        st, e2 = call(T().encode, arg, allowed=REJECTIONS)
+        if st == "raised":
+            case.setdefault("_container_not_accepted", []).append("encode:" + rep)
+            continue
         if arg.to01() != s144:
             raise Fail("encode_does_not_mutate_input", arg.to01(), s144, rep)
         if not isinstance(e2, bitarray) or e2.to01() != s196:
             raise Fail("encode_independent_of_container", e2.to01() if isinstance(e2, bitarray) else repr(e2), s196, rep)
     for rep in DECODE_REPS:
         arg = make_bits(s196, rep)
-        d2 = call(T().decode, arg)[1]
+        st, d2 = call(T().decode, arg, allowed=REJECTIONS)
+        if st == "raised":
+            case.setdefault("_container_not_accepted", []).append("decode:" + rep)
+            continue
         if arg.to01() != s196:
             raise Fail("decode_does_not_mutate_input", arg.to01(), s196, rep)
         if not isinstance(d2, bitarray) or d2.to01() != s144:
